@@ -11,6 +11,7 @@ import (
 	"path/filepath"
 	"strings"
 	"sync"
+	"sync/atomic"
 
 	"github.com/miekg/dns"
 
@@ -52,6 +53,13 @@ type c56Case struct {
 	Client   string `json:"client,omitempty"`  // ClientAddr IP ("" = nil)
 	Client4  bool   `json:"client4,omitempty"`
 	ViaMod   bool   `json:"via_module,omitempty"` // through mod_doh handler + UDP capture
+	// CLIENT-OPT-SPACE family (c56opt.go); descriptive only, the request is defined by the fields above
+	Family     string   `json:"family,omitempty"`
+	Pattern    string   `json:"pattern,omitempty"`     // arrangement of the client's OPT options: E = client-subnet, o = other; "none" = no OPT RR
+	Options    []string `json:"options,omitempty"`     // kind of every option, in order
+	OptPos     string   `json:"opt_pos,omitempty"`     // place of the OPT RR in the additional section
+	OptHdr     string   `json:"opt_hdr,omitempty"`     // unusual OPT header fields
+	ClientKind string   `json:"client_kind,omitempty"` // address kinds of RemoteAddr / ClientAddr
 	MsgHex   string `json:"-"`
 	wantErr  bool
 	wantWire []byte // the client's DNS message when !wantErr
@@ -631,52 +639,73 @@ func c56Judge(r *vkit.Run, c *c56Case, packed []byte) bool {
 		r.Violation("opt:client-options-changed", "the client's EDNS options were not forwarded unchanged", c56Witness(c, map[string]interface{}{"got": ww.otherOp, "want": cw.otherOp}))
 		ok = false
 	}
-	if clientHadECS {
-		// docs are silent on whether a client-supplied ECS is kept or replaced: only the OPT count is judged
-		r.Count("client_supplied_ecs_not_judged", 1)
-		return ok
-	}
-	if len(ww.ecs) != 1 {
+	if len(ww.ecs) == 0 || (!clientHadECS && len(ww.ecs) != 1) {
 		r.Violation(fmt.Sprintf("ecs:count-%d", len(ww.ecs)), "expected exactly one client-subnet option", c56Witness(c, map[string]interface{}{"forwarded_hex": hex.EncodeToString(packed)}))
 		return false
 	}
-	e := ww.ecs[0]
+	if clientHadECS {
+		r.Count("client_supplied_ecs_judged", 1)
+	}
+	// every client-subnet option of the forwarded message must be the genuine one
+	// (the statement: "a client-subnet option whose family and prefix match the
+	// client address"); whether bfe replaces the client's options or refuses the
+	// query is not prescribed, an option describing anything else is a violation.
 	cip := c56ClientIP(c)
+	for idx, e := range ww.ecs {
+		sig, what := c56ECSVerdict(e, cip)
+		if sig == "" {
+			continue
+		}
+		desc := map[string]interface{}{"ecs_index": idx, "ecs_count": len(ww.ecs), "ecs_family": e.family, "ecs_prefix": e.prefix, "ecs_scope": e.scope, "ecs_addr_hex": hex.EncodeToString(e.addr), "client_ip": cip.String(), "forwarded_hex": hex.EncodeToString(packed)}
+		if clientHadECS {
+			for _, ce := range cw.ecs {
+				if ce.family == e.family && ce.prefix == e.prefix && ce.scope == e.scope && bytes.Equal(ce.addr, e.addr) {
+					sig = "ecs:client-supplied-option-survives:" + c.Shape
+					what = fmt.Sprintf("client-subnet option %d of %d in the forwarded message is the one the client sent, not the genuine one: %s", idx+1, len(ww.ecs), what)
+					break
+				}
+			}
+		}
+		r.Violation(sig, what, c56Witness(c, desc))
+		return false
+	}
+	return ok
+}
+
+// c56ECSVerdict judges one client-subnet option against the real client
+// address; sig == "" means the option is the genuine one.
+func c56ECSVerdict(e c56Opt, cip net.IP) (sig, what string) {
 	v4 := cip.To4() != nil
 	var wantFam uint16 = 2
 	maxPrefix, addr := 128, []byte(cip.To16())
 	if v4 {
 		wantFam, maxPrefix, addr = 1, 32, []byte(cip.To4())
 	}
-	desc := map[string]interface{}{"ecs_family": e.family, "ecs_prefix": e.prefix, "ecs_addr_hex": hex.EncodeToString(e.addr), "client_ip": cip.String()}
 	if e.family != wantFam {
-		sig := "ecs:ipv6-client-gets-family-1"
+		sig = "ecs:ipv6-client-gets-family-1"
 		if v4 {
 			sig = fmt.Sprintf("ecs:ipv4-client-gets-family-%d", e.family)
+		} else if e.family != 1 {
+			sig = fmt.Sprintf("ecs:ipv6-client-gets-family-%d", e.family)
 		}
-		r.Violation(sig, fmt.Sprintf("client %s: ECS family %d prefix %d address %x, want family %d prefix<=%d", cip, e.family, e.prefix, e.addr, wantFam, maxPrefix), c56Witness(c, desc))
-		return false
+		return sig, fmt.Sprintf("client %s: ECS family %d prefix %d address %x, want family %d prefix<=%d", cip, e.family, e.prefix, e.addr, wantFam, maxPrefix)
 	}
 	if int(e.prefix) > maxPrefix {
-		r.Violation("ecs:prefix-too-long", fmt.Sprintf("prefix %d > %d", e.prefix, maxPrefix), c56Witness(c, desc))
-		return false
+		return "ecs:prefix-too-long", fmt.Sprintf("prefix %d > %d", e.prefix, maxPrefix)
 	}
 	if len(e.addr) != (int(e.prefix)+7)/8 {
-		r.Violation("ecs:address-length", fmt.Sprintf("address has %d bytes for prefix %d", len(e.addr), e.prefix), c56Witness(c, desc))
-		return false
+		return "ecs:address-length", fmt.Sprintf("address has %d bytes for prefix %d", len(e.addr), e.prefix)
 	}
 	// address = client address masked to the prefix
 	mask := net.CIDRMask(int(e.prefix), maxPrefix)
 	wantAddr := net.IP(addr).Mask(mask)[:len(e.addr)]
 	if !bytes.Equal(wantAddr, e.addr) {
-		r.Violation("ecs:address-mismatch", fmt.Sprintf("ECS address %x is not the client address %s masked to /%d", e.addr, cip, e.prefix), c56Witness(c, desc))
-		return false
+		return "ecs:address-mismatch", fmt.Sprintf("ECS address %x is not the client address %s masked to /%d", e.addr, cip, e.prefix)
 	}
 	if e.scope != 0 {
-		r.Violation("ecs:scope-nonzero", "SCOPE PREFIX-LENGTH must be 0 in queries (RFC 7871 6)", c56Witness(c, desc))
-		return false
+		return "ecs:scope-nonzero", "SCOPE PREFIX-LENGTH must be 0 in queries (RFC 7871 6)"
 	}
-	return ok
+	return "", ""
 }
 
 func c56Direct(r *vkit.Run, c *c56Case) {
@@ -760,10 +789,17 @@ func c56Direct(r *vkit.Run, c *c56Case) {
 	if c56Judge(r, c, packed) {
 		r.Count("forwarded_ok", 1)
 	}
-	if r.WantSample() && i64(len(c.BodyHex)) < 400 {
+	if c.Family != "" {
+		// the family runs first: keep a few of its cases, leave room for the base workload
+		if strings.Count(c.Pattern, "E") >= 2 && atomic.AddInt32(&c56FamSamples, 1) <= 3 {
+			r.Sample(c)
+		}
+	} else if r.WantSample() && i64(len(c.BodyHex)) < 400 {
 		r.Sample(c)
 	}
 }
+
+var c56FamSamples int32
 
 func i64(n int) int64 { return int64(n) }
 
@@ -868,7 +904,7 @@ func c56ViaModule(r *vkit.Run, env *modEnv, up *c56Upstream, c *c56Case) {
 }
 
 func c56(r *vkit.Run) {
-	r.SetRule("seeded DoH requests parsed by bfe_http.ReadRequest: GET (?dns=base64url) and POST (Content-Length or chunked) carrying miekg-packed queries (0-2 questions, optional answer/authority/additional RRs, compression on/off, with no OPT / OPT without ECS / OPT with ECS), truncated and random wire, wrong methods, missing/duplicate/percent-encoded/std-alphabet/illegal/impossible-length dns parameter, POST bodies at limit-2..limit and over the 8192-byte limit (record boundary exactly at the limit, mid-record, valid message + trailing bytes); RemoteAddr/ClientAddr drawn from IPv4 (4- and 16-byte net.IP), v4-mapped and IPv6. Oracle: reject <=> reference says malformed/oversized; else packed output walked by an independent wire walker (one OPT, one ECS, family/prefix/address per RFC 7871) and other sections equal to the client's message (miekg as codec). A 1/20 subset also runs through mod_doh's handler with a capturing UDP upstream. Client-supplied ECS: only the OPT count is judged. Non-trivial = request reached RequestToDnsMsg; distinct = (method,target,body,addresses)")
+	r.SetRule("seeded DoH requests parsed by bfe_http.ReadRequest: GET (?dns=base64url) and POST (Content-Length or chunked) carrying miekg-packed queries (0-2 questions, optional answer/authority/additional RRs, compression on/off, with no OPT / OPT without ECS / OPT with one ECS), truncated and random wire, wrong methods, missing/duplicate/percent-encoded/std-alphabet/illegal/impossible-length dns parameter, POST bodies at limit-2..limit and over the 8192-byte limit (record boundary exactly at the limit, mid-record, valid message + trailing bytes); RemoteAddr/ClientAddr drawn from IPv4 (4- and 16-byte net.IP), v4-mapped and IPv6. Oracle: reject <=> reference says malformed/oversized; else packed output walked by an independent wire walker (one OPT, one ECS, family/prefix/address per RFC 7871) and other sections equal to the client's message (miekg as codec). A 1/20 subset also runs through mod_doh's handler with a capturing UDP upstream. Client-supplied ECS: EVERY client-subnet option of the forwarded message (at least one) must be the genuine one for the real client (family by To4, prefix <= 32/128, address = masked client address of ceil(prefix/8) bytes, scope 0); a non-genuine option byte-identical to one the client sent is reported as ecs:client-supplied-option-survives:<shape>; how bfe gets there (replace / strip+append) is not prescribed. CLIENT-OPT-SPACE family (c56opt.go, own generator stream, runs first; 840 x 2 quick / x 40 thorough cases): enumerated (arrangement x GET/POST x client kind), arrangement = no OPT RR, OPT without options, or every ordering of 0-3 client-subnet options among 0-3 other options (cookie 8/16-40 bytes, padding, NSID, DAU, unknown codes 4/13/17/26946/65001/65534/65535) = 70 arrangements; client kind = RemoteAddr IPv4 (16-byte), IPv4 (4-byte), IPv6, IPv6 + trusted ClientAddr IPv4, IPv4 + ClientAddr IPv6, IPv4 + ClientAddr IPv4; client-supplied subnet options written as raw bytes: IPv4 /24 /32 /0, IPv6 /56 /128 /0, family 0, equal to the genuine value, the real address with a shorter prefix, the genuine value with a non-zero scope, the other family, the untrusted TCP peer address, and (<= one per message) family 3 / shorter than 4 bytes / prefix > 32, for which the codec decides acceptance (rejected => bfe must reject); OPT RR alone / first / middle / last in the additional section, UDP size 0-65535, DO, version != 0, Z bits, extended rcode; every 12th case also through the module handler. A client message with two OPT RRs is not generated (RFC 6891 6.1.1: FORMERR; docs silent). Every arrangement, class, client kind, option kind, OPT position and header variant must occur, else inconclusive. Non-trivial = request reached RequestToDnsMsg; distinct = (method,target,body,addresses)")
 	r.Assume("miekg/dns v1.1.29 Unpack/Pack is a correct codec for the generated messages (it is also the library bfe uses; the ECS option is decoded independently)")
 	r.Assume("POST limit 8192 bytes (mod_doh maxPostMsgLength) is the module's definition of oversized; GET size is not limited by the docs and not judged")
 
@@ -911,6 +947,9 @@ func c56(r *vkit.Run) {
 		r.Inconclusive("mod_doh Init failed: " + err.Error())
 		return
 	}
+
+	// CLIENT-OPT-SPACE family (c56opt.go), before the base workload
+	c56OptSpace(r, env, up)
 
 	n := r.N(20000, 400000)
 	cases := make([]*c56Case, n)
